@@ -53,6 +53,9 @@ ExtremeQ == <<
   CmpLit(<<49, 101, 51, 48, 56>>), CmpLit(<<49, 101, 52, 48, 48>>), CmpLit(<<49, 101, 45, 52, 48, 48>>), CmpLit(<<45, 48>>), CmpLit(<<45, 48, 46, 48>>),
   CmpLit(<<49, 46>> \o Rep(<<48>>, 40) \o <<49>>), CmpLit(<<49, 101, 43, 57, 57, 57, 57, 57, 57, 57, 57, 57, 57>>),
   <<36, 46, 46, 91>> \o MaxI \o <<93>>, <<36, 91, 63, 64, 91>> \o Neg(MaxI) \o <<93, 61, 61, 49, 93>>,
+  <<36, 91, 63, 64, 91>> \o BigDigits(1) \o <<93, 61, 61, 49, 93>>, <<36, 91, 63, 64, 91>> \o Neg(I64MaxP1) \o <<93, 61, 61, 49, 93>>,      \* $[?@[2^53]==1]  $[?@[-2^63]==1]
+  <<36, 91, 63, 36, 91>> \o I64Max \o <<93, 61, 61, 49, 93>>, <<36, 91, 63, 108, 101, 110, 103, 116, 104, 40, 64, 91>> \o Neg(I64MaxP1) \o <<93, 41, 62, 48, 93>>,
+  <<36, 91, 63, 99, 111, 117, 110, 116, 40, 64, 91>> \o Neg(I64MaxP1) \o <<58, 93, 41, 62, 48, 93>>,
   <<36, 91, 63, 108, 101, 110, 103, 116, 104, 40, 64, 41, 62>> \o MaxI \o <<93>>,
   <<36>>, <<>>, <<36, 36>>, <<64>>, <<36, 46>>, <<36, 46, 46>>, <<36, 91>>, <<36, 91, 93>>, <<36, 91, 63>>, <<36, 91, 63, 93>>, <<36, 91, 39>>, <<36, 91, 39, 92>>,
   <<36, 91, 39, 92, 117>>, <<36, 91, 39, 92, 117, 68, 56, 48, 48, 39, 93>>, <<36, 91, 39, 92, 117, 68, 56, 48, 48, 92, 117, 39, 93>>, <<36, 91, 63, 64, 61, 61>>,
